@@ -135,6 +135,15 @@ func runC18(r *core.Run) {
 	if !r.Thorough && len(texts) > 2600 {
 		texts = append(texts[:2200], texts[len(texts)-60:]...)
 	}
+	// (2b) expression trees of Expr.tla in their three renderings: parentheses and precedence
+	nex := 150
+	if r.Thorough {
+		nex = 3000
+	}
+	for _, c := range exprCases(r, nex, r.Seed*37) {
+		full := exprText(c.E, "full")
+		texts = append(texts, "SELECT "+full, "SELECT "+exprText(c.E, "min"), "SELECT ("+full+") AS r, 10 - ("+full+") IS NULL")
+	}
 	dir := r.Dir("c18")
 	writeFile(dir+"/tbl.csv", tblCSV)
 	var evs []rtEvent
